@@ -113,14 +113,14 @@ PROPS = {
     "C10": dict(suites=["sim_plain", "sim_heap", "limits_dbg", "limits_rel", "core_plain", "rel_plain", "set_heap", "defects"], mc=["CountR8", "Overflow", "OverflowDbg"]),
     # the two-slot suites exist to exercise clone / clone_from followed by divergent histories: there,
     # any failed monitor (a lookup missing in the clone, an effect seen through the other map, ...) is C11's
-    "C11": dict(suites=["two_heap", "two_plain_rel", "set_two", "defects"], mc=[], any_monitor=True),
+    "C11": dict(suites=["two_heap", "two_plain_rel", "set_two", "defects"], mc=["CountR8", "Small"], any_monitor=True),
     "C12": dict(suites=["core_heap", "rel_heap", "core_plain", "core_zst", "defects"], mc=["Small"]),
     "C13": dict(suites=["set_heap", "set_two", "set_zst"], mc=["Small"]),
-    "C14": dict(suites=["meta_heap", "meta_plain", "meta_set", "meta_zst"], mc=[],
+    "C14": dict(suites=["meta_heap", "meta_plain", "meta_set", "meta_zst"], mc=["Small"],
                 monitors=["eq_is_content_equality", "debug_shows_contents", "lookup_result", "set_contains_result",
                           "iter_yields_each_once", "iter_exact_len", "iter_complete", "len_is_sum", "contents"]),
     "C15": dict(suites=["par_heap", "par_two", "par_set"], mc=[]),
-    "C16": dict(suites=["serde_map", "serde_set", "serde_zst"], mc=[]),
+    "C16": dict(suites=["serde_map", "serde_set", "serde_zst"], mc=["Small"]),
 }
 
 PROPS["C17"] = dict(suites=["diff_plain", "diff_heap", "diff_two", "diff_set", "diff_zst", "limits_dbg", "limits_rel", "defects"], mc=["CountR8", "Overflow", "OverflowDbg"])
